@@ -338,6 +338,9 @@ func must(elems []any, nonTerminals []lex.Token, defaultField string) ([]any, []
 		return elems, nonTerminals, false
 	}
 
+	// a bare term is scoped to the default field like the operands of AND, OR and NOT are
+	rest = wrapLiteral(rest, defaultField)
+
 	// we consumed 1 terminal, the +
 	return []any{expr.MUST(rest)}, drop(nonTerminals, 1), true
 }
@@ -356,6 +359,9 @@ func mustNot(elems []any, nonTerminals []lex.Token, defaultField string) ([]any,
 	if !ok {
 		return elems, nonTerminals, false
 	}
+	// a bare term is scoped to the default field like the operands of AND, OR and NOT are
+	rest = wrapLiteral(rest, defaultField)
+
 	// we consumed one terminal, the -
 	return []any{expr.MUSTNOT(rest)}, drop(nonTerminals, 1), true
 }
@@ -374,6 +380,7 @@ func fuzzy(elems []any, nonTerminals []lex.Token, defaultField string) ([]any, [
 		}
 
 		// we consumed one terminal, the ~
+		rest = wrapLiteral(rest, defaultField)
 		return []any{expr.FUZZY(rest, 1)}, drop(nonTerminals, 1), true
 	}
 
@@ -407,6 +414,7 @@ func fuzzy(elems []any, nonTerminals []lex.Token, defaultField string) ([]any, [
 	}
 
 	// we consumed one terminal, the ~
+	rest = wrapLiteral(rest, defaultField)
 	return []any{expr.FUZZY(rest, idistance)}, drop(nonTerminals, 1), true
 }
 
@@ -424,6 +432,7 @@ func boost(elems []any, nonTerminals []lex.Token, defaultField string) ([]any, [
 		}
 
 		// we consumed one terminal, the ^
+		rest = wrapLiteral(rest, defaultField)
 		return []any{expr.BOOST(rest, 1.0)}, drop(nonTerminals, 1), true
 	}
 
@@ -457,6 +466,7 @@ func boost(elems []any, nonTerminals []lex.Token, defaultField string) ([]any, [
 	}
 
 	// we consumed one terminal, the ^
+	rest = wrapLiteral(rest, defaultField)
 	return []any{expr.BOOST(rest, fpower)}, drop(nonTerminals, 1), true
 }
 
@@ -540,6 +550,10 @@ func toPositiveFloat(in string) (f float64, err error) {
 // field to compare "c" against to be valid.
 func wrapLiteral(lit *expr.Expression, field string) *expr.Expression {
 	if lit.Op == expr.Literal && field != "" {
+		return expr.Eq(expr.Column(field), lit)
+	}
+	// wildcard and regexp terms are bare terms as well (this makes a LIKE expression)
+	if (lit.Op == expr.Wild || lit.Op == expr.Regexp) && field != "" {
 		return expr.Eq(expr.Column(field), lit)
 	}
 	return lit
